@@ -345,6 +345,14 @@ def c04_shapes(tier):
     for words, slots in ((['-b', S(0) + ',-' + S(1)], ['d1', 'd1']), (['--bits=-' + S(0)], ['d1']), (['-b-' + S(0)], ['d2']), (['-b', '-' + S(0)], ['d1']), (['-b', S(0)], ['b2']), (['-b', '18446744073709551615'], []), (['-b', '18446744073709551616'], []),
                          (['-b', '4294967295'], []), (['-b', '4294967296,' + S(0)], ['d1']), (['-z-' + S(0)], ['d1']), (['--vbool=' + S(0) + ',-' + S(1)], ['d1', 'd1']), (['-a', S(0) + ',-' + S(1) + ',' + S(0) + ',' + S(1)], ['d1', 'd1'])):
         shapes.append(('hx_pa', [6, 0], lab('c04/positions', words), {'pa_tmpl': tmpl('safe', [], slots, words)}))
+    # argument files with arbitrary content (program-argument file and a file named with --arg-file); a file that names itself /
+    # two files that name each other
+    for src in ('hx_pa_file', 'hx_pa_argfile'):
+        for ls in ((1,), (2,), (3,), (1, 1), (2, 1)):
+            shapes.append((src, [0, 0], 'c04/%s bytes%s' % (src[6:], '-'.join(map(str, ls))), {'pa_tmpl': tmpl('safe', [], ['b%d' % l for l in ls], [S(i) for i in range(len(ls))] + ['\x02', '-g'])}))
+    shapes.append(('hx_pa_argfile', [0, 0], 'c04/argfile names itself', {'pa_tmpl': tmpl('safe', [], [], ['-f', '\x03', '--arg-file', '/tmp/vs_home/args.txt', '\x02', '-g'])}))
+    shapes.append(('hx_pa_argfile', [0, 1], 'c04/argfile names itself (first line)', {'pa_tmpl': tmpl('safe', [], [], ['--arg-file=/tmp/vs_home/args.txt', '\x03', '-f', '\x02', '-g'])}))
+    shapes.append(('hx_pa_argfile', [0, 0], 'c04/argfile names a missing file', {'pa_tmpl': tmpl('safe', [], ['s2'], ['--arg-file', '/tmp/vs_home/' + S(0), '\x02', '-g'])}))
     # sources: environment variable with arbitrary content; program-argument file that cannot be opened
     for l in (1, 2, 3):
         shapes.append(('hx_pa_env', [0, 0], 'c04/env%d' % l, {'pa_tmpl': tmpl('safe', [], ['b%d' % l], [S(0)])}))
